@@ -15,12 +15,13 @@ value last written under its key.
 What is proved, for EVERY legal history (any number of transactions, operations, commits, rollbacks):
 * `C19_persisted_eq_model_outside_findings` — every placement, hypothesis on the history alone
   (`findingHistory pl ops = false`): actively persisted stores without a committed removes-only transaction
-  (C19-F1/F2; `C19_active_persisted_eq_model`), other stores without a remove that hands the tracker another item than
-  the one removed (C19-F3; `C19_nonactive_persisted_eq_model`);
+  (C19-F1/F2; `C19_active_persisted_eq_model`); NO condition for the other placements
+  (`C19_nonactive_persisted_eq_model`) since /repo a8e6b837 repaired C19-F3 (a removal out of an interior node handed
+  the successor to `tracker.Remove`; `legacyRemove`, `C19_legacy_counterexample_interior_remove`);
 * `C19_persisted_eq_model_every_placement` — every placement under `commitsTracked` (no commit is skipped; a
-  condition on the model's run, it also covers histories with interior removes that keep something tracked);
-* `C19_active_remove_only_commit_diverges` — for actively persisted stores the excluded set is exact: the first
-  removes-only commit always loses its removes; `C19_excluded_set_witnesses` — the three finding witnesses.
+  condition on the model's run);
+* `C19_active_remove_only_commit_diverges` — the excluded set is exact: the first removes-only commit always loses
+  its removes; `C19_excluded_set_witnesses` — the two finding witnesses.
 The specification, the invariants and their preservation are in `Sop.Lemmas.ValuePlacement`. -/
 namespace Sop.C19
 open Sop.ValuePlacement
@@ -57,14 +58,17 @@ theorem C19_counterexample_active_value_destroyed :
       = [(2, none), (1, some (v 1))] ∧
     specView (specRun witnessRemoveOnlyBlob).committed = [(1, some (v 1))] := by decide +kernel
 
-/-- (3) every placement: removing a key from an interior node hands the SUCCESSOR item to the tracker; when the
-successor was added by the same transaction its add is untracked, the tracker is empty, the commit is skipped -/
+/-- (3) REPAIRED by /repo a8e6b837; the tree before it (`legacyRemove`), every placement that is not actively
+persisted: removing a key from an interior node handed the SUCCESSOR item to the tracker; when the successor was added
+by the same transaction its add was untracked, the tracker was empty, the commit was skipped -/
 def witnessInterior : List Op :=
   [.begin, .add 10 (v 1), .add 20 (v 2), .add 30 (v 3), .commit, .begin, .add 25 (v 6), .remove 20 25, .commit]
 
-theorem C19_counterexample_interior_remove :
+def runLegacy (pl : Placement) (ops : List Op) : St := ops.foldl St.apply { place := pl, legacyRemove := true }
+
+theorem C19_legacy_counterexample_interior_remove :
     Legal witnessInterior ∧
-    view (run inNode witnessInterior).blobs (run inNode witnessInterior).slots
+    view (runLegacy inNode witnessInterior).blobs (runLegacy inNode witnessInterior).slots
       = [(30, some (v 3)), (20, some (v 2)), (10, some (v 1))] ∧
     specView (specRun witnessInterior).committed = [(25, some (v 6)), (30, some (v 3)), (10, some (v 1))] := by decide +kernel
 
@@ -155,8 +159,9 @@ theorem C19_candidate_repair_on_witnesses :
 The invariant (`AInv`: id freshness, blob frame, tracker entries) and its preservation by every operation are in
 `Sop.Lemmas.ValuePlacement`.  The excluded histories are exactly those of the open findings C19-F1/F2: a committed
 transaction that consists of removes only (`NoRemoveOnlyCommit` is the complement, a predicate on the history
-alone).  C19-F3 (the successor handed to `tracker.Remove`) cannot hurt an actively persisted store — its removes
-never reach the tracker — so `via` is unconstrained; C19-F4 is about where a value is stored, not what is read. -/
+alone).  Which item is handed to `tracker.Remove` does not matter in an actively persisted store — its removes never
+reach the tracker —, so the theorem holds for the legacy tree too (`remove_step` is stated for both); C19-F4 is about
+where a value is stored, not what is read. -/
 
 /-- **C19 for actively persisted stores.**  After EVERY legal history (any number of transactions, adds, updates —
 also of a key added or already updated by the same transaction —, removes — whichever item the B-tree hands to
@@ -183,35 +188,21 @@ example : Legal sampleActive ∧ NoRemoveOnlyCommit sampleActive ∧
 /-! ### the excluded set -/
 
 /-- the histories of the open findings, as a predicate on the history alone: an actively persisted store with a
-committed removes-only transaction (C19-F1, F2); any other store with a remove that hands the tracker another item
-than the one removed (C19-F3) -/
+committed removes-only transaction (C19-F1, F2).  (Until /repo a8e6b837 also: any other store with a remove that
+handed the tracker another item than the one removed, C19-F3.) -/
 def findingHistory (pl : Placement) (ops : List Op) : Bool :=
-  if pl.active then !noRemoveOnlyFrom (false, false) ops else !ops.all noInterior
+  pl.active && !noRemoveOnlyFrom (false, false) ops
 
-/-- inside the excluded set the statement fails on the model exactly as on the code (the three witnesses are
-directed corpus cases of harness/cmd/c19): C19-F1 (`witnessRemoveOnly`), C19-F2 (`witnessRemoveOnlyBlob`) and
-C19-F3 (`witnessInterior`, in a store that is not actively persisted) are in it and do not read back … -/
+/-- inside the excluded set the statement fails on the model exactly as on the code (the two witnesses are
+directed corpus cases of harness/cmd/c19): C19-F1 (`witnessRemoveOnly`) and C19-F2 (`witnessRemoveOnlyBlob`) are in it
+and do not read back … -/
 theorem C19_excluded_set_witnesses :
     (findingHistory active witnessRemoveOnly = true ∧ Legal witnessRemoveOnly ∧
       view (run active witnessRemoveOnly).blobs (run active witnessRemoveOnly).slots
         ≠ specView (specRun witnessRemoveOnly).committed) ∧
     (findingHistory active witnessRemoveOnlyBlob = true ∧ Legal witnessRemoveOnlyBlob ∧
       view (run active witnessRemoveOnlyBlob).blobs (run active witnessRemoveOnlyBlob).slots
-        ≠ specView (specRun witnessRemoveOnlyBlob).committed) ∧
-    (findingHistory inNode witnessInterior = true ∧ Legal witnessInterior ∧
-      view (run inNode witnessInterior).blobs (run inNode witnessInterior).slots
-        ≠ specView (specRun witnessInterior).committed) := by decide +kernel
-
-/-- … while the history of C19-F3 is NOT a finding history of an actively persisted store: there it reads back right
-(removes never reach the tracker, the add stays tracked) -/
-theorem C19_interior_remove_harmless_when_active :
-    findingHistory active witnessInterior = false ∧ Legal witnessInterior ∧
-    commitsTracked { place := active } witnessInterior = true ∧
-    commitsTracked { place := inNode } witnessInterior = false ∧
-    view (run active witnessInterior).blobs (run active witnessInterior).slots
-      = specView (specRun witnessInterior).committed :=
-  ⟨by decide +kernel, by decide +kernel, by decide +kernel, by decide +kernel,
-   C19_active_persisted_eq_model active rfl witnessInterior (by decide +kernel) (by decide +kernel)⟩
+        ≠ specView (specRun witnessRemoveOnlyBlob).committed) := by decide +kernel
 
 /-- a history whose last operation is the first commit of a removes-only transaction: the cold reader does NOT see
 what was written (the removed keys are still there) -/
@@ -263,30 +254,41 @@ theorem C19_persisted_eq_model_every_placement (pl : Placement) (ops : List Op) 
     exact C19_active_persisted_eq_model pl ha ops hl
       (commitsTracked_noRemoveOnly ops _ _ (false, false) (ainv_init pl ha) hl hct)
 
-/-! ## (c) placement, whole histories: stores that are not actively persisted, hypothesis on the history alone
+/-! ## (c) placement, whole histories: stores that are not actively persisted, no run-level hypothesis
 
-`C19_persisted_eq_model` needs `commitsTracked`, a condition on the model's run.  When every remove hands the tracker
-the item it removes (`NoInteriorRemove`: no C19-F3) a skipped commit is harmless — the tracker is empty only when the
+`C19_persisted_eq_model` needs `commitsTracked`, a condition on the model's run.  Since the item handed to
+`tracker.Remove` is the item removed (/repo a8e6b837) a skipped commit is harmless — the tracker is empty only when the
 transaction removed exactly what it added (`ninv_skip`: the working tree IS the committed tree) — so the condition
 can be dropped. -/
 
-/-- **C19 for stores that are not actively persisted, hypothesis on the history alone.**  After every legal history
-in which every remove hands the tracker the item it removes, a cold reader sees exactly what the committed
-transactions wrote: a commit is skipped only when the transaction changed nothing (it removed what it added). -/
-theorem C19_nonactive_persisted_eq_model (pl : Placement) (hna : pl.active = false) (ops : List Op) (hl : Legal ops)
-    (hx : NoInteriorRemove ops) :
+/-- **C19 for stores that are not actively persisted.**  After EVERY legal history a cold reader sees exactly what the
+committed transactions wrote: a commit is skipped only when the transaction changed nothing (it removed what it
+added). -/
+theorem C19_nonactive_persisted_eq_model (pl : Placement) (hna : pl.active = false) (ops : List Op) (hl : Legal ops) :
     view (run pl ops).blobs (run pl ops).slots = specView (specRun ops).committed := by
-  have h := run_nainv ops { place := pl } {} hna
-    ⟨by simp [Rel, kv, specView], ⟨(fun _ h => by cases h), (fun _ h => by cases h), (fun _ h => by cases h)⟩, by simp [NAWork]⟩ hl hx
+  have h := run_nainv ops { place := pl } {} hna rfl
+    ⟨by simp [Rel, kv, specView], ⟨(fun _ h => by cases h), (fun _ h => by cases h), (fun _ h => by cases h)⟩, by simp [NAWork]⟩ hl
   exact view_eq_kv_of_spec h.rel.1 _
 
-/-- satisfiable, and weaker than `commitsTracked` on such histories: the second and third commit are skipped -/
+/-- it covers histories `commitsTracked` excludes: the second and third commit are skipped -/
 def sampleSkip : List Op :=
   [.begin, .add 1 (v 1), .commit, .begin, .add 7 (v 7), .update 7 (v 8), .remove 7 7, .commit, .begin, .commit,
    .begin, .update 1 (v 2), .commit]
 
-example : Legal sampleSkip ∧ NoInteriorRemove sampleSkip ∧ commitsTracked { place := inNode } sampleSkip = false ∧
+example : Legal sampleSkip ∧ commitsTracked { place := inNode } sampleSkip = false ∧
     specView (specRun sampleSkip).committed = [(1, some (v 2))] := by decide +kernel
+
+/-- the history of C19-F3 reads back right in every placement now (on the legacy tree: in an actively persisted
+store only) -/
+theorem C19_interior_remove_harmless :
+    (∀ pl : Placement, view (run pl witnessInterior).blobs (run pl witnessInterior).slots
+      = specView (specRun witnessInterior).committed) ∧
+    view (runLegacy active witnessInterior).blobs (runLegacy active witnessInterior).slots
+      = specView (specRun witnessInterior).committed := by
+  refine ⟨fun pl => ?_, by decide +kernel⟩
+  cases ha : pl.active with
+  | false => exact C19_nonactive_persisted_eq_model pl ha witnessInterior (by decide +kernel)
+  | true => exact C19_active_persisted_eq_model pl ha witnessInterior (by decide +kernel) (by decide +kernel)
 
 /-- **C19, every placement, hypothesis on the history alone**: outside the histories of the open findings a cold
 reader sees exactly what the committed transactions wrote. -/
@@ -298,11 +300,9 @@ theorem C19_persisted_eq_model_outside_findings (pl : Placement) (ops : List Op)
   | true =>
     rw [ha] at hx
     exact C19_active_persisted_eq_model pl ha ops hl (by simpa using hx)
-  | false =>
-    rw [ha] at hx
-    exact C19_nonactive_persisted_eq_model pl ha ops hl (by simpa using hx)
+  | false => exact C19_nonactive_persisted_eq_model pl ha ops hl
 
-example : findingHistory active sampleActive = false ∧ findingHistory inNode sampleSkip = false ∧
-    findingHistory ⟨false, false, true⟩ sampleOps = false := by decide +kernel
+example : findingHistory active sampleActive = false ∧ findingHistory inNode witnessInterior = false ∧
+    findingHistory active witnessInterior = false := by decide +kernel
 
 end Sop.C19
